@@ -357,7 +357,7 @@ func runLimiterScript(s limScript) []string {
 }
 
 var limBases = []string{"abc1", "abd2", "0f3e9a", "fe9", "c0ffee", "a1b2c3", "77aa", "d00d"}
-var limSizes = []int64{1, 1023, 1024, 1025, 4096, 1 << 20, 150<<20 + 1, 4 << 30}
+var limSizes = []int64{0, 1, 1023, 1024, 1025, 4096, 1 << 20, 150<<20 + 1, 4 << 30} // (0: cached redirects, empty 404s and HEAD entries are zero-length files)
 var limKBSizes = []int64{1024, 2048, 4096, 1 << 20, 150 << 20}
 var limDts = []int64{0, 1, 1, 2, 3, 5, 5, 7, 30}
 
